@@ -25,7 +25,7 @@ RULE = ('templates from a grammar: literal runs (ascii, unicode, %, $, quotes), 
 ASSUMPTIONS = ['field expressions avoid the characters the format mini-language gives a meaning to']
 REQUIRE = {'messages_compared': 1000, 'fields_compared': 1500, 'failing_fields': 150, 'snapshot_log_pairs': 300,
            'label_checks': 1000, 'python_plugin_messages': 100, 'malformed_templates': 30,
-           'messages_the_logger_rejected': 40}
+           'messages_the_logger_rejected': 40, 'logger_reconfigured_cases': 40}
 T0 = 1_700_000_000_000_000_000
 
 HOST = '''"""c16 host"""
@@ -62,7 +62,10 @@ def leaf(count, name, person, data, weird):
 
 FIELDS = ['count', 'name', 'person', 'person.name', 'person.age + 1', 'person.tags["k"]', "person.tags['n']",
           'data', 'data[0]', 'data[-1]', 'len(data)', 'WORDS[count % 3]', 'LIMIT', 'shout(name)', 'name.upper()',
-          'count * 2', 'str(count) + name', 'sorted(data)', 'max(data)', 'None', 'True', '3.5', 'count > 1']
+          'count * 2', 'str(count) + name', 'sorted(data)', 'max(data)', 'None', 'True', '3.5', 'count > 1',
+          # freshly computed numbers and strings: temporaries that exist only while the field is evaluated
+          'count * 1.5', 'count / 3', 'person.age / 7', 'len(data) * 0.25', 'count * 1000 + 7', 'name * 3',
+          'person.age * 12345']
 FAILING = ['nope_zz', 'person.missing', 'data[99]', '1/0', 'person.tags["zz"]', 'int(name)', 'weird.attr', 'count.x']
 LITERALS = ['', ' ', 'value=', 'hit ', ' -> ', 'ünï ✓ ', '100% ', '$x ', "it's ", '"q" ', 'a/b\\c ', 'tab\t', '[', ']',
             '(deep) ', 'x = ', ' , ', '#', '%s %d ']
@@ -210,7 +213,7 @@ def case_log(seed, out, spec, wd):
 
     def hook(name, callback, payload):
         if callback == 'log':
-            observed.setdefault(cur['hit'], []).append((payload['tp_id'], payload['ctx_id'], payload['msg']))
+            observed.setdefault(cur['hit'], []).append((payload['tp_id'], payload['ctx_id'], payload['msg'], name))
             if strict:
                 try:
                     payload['msg'].encode('utf-8')
@@ -235,8 +238,14 @@ def case_log(seed, out, spec, wd):
     rig.pre, rig.post = pre, post
     plugins.HOOK[0] = hook
 
+    # the plugins may be configured again while the agent lives (it is started again): from then on the messages go
+    # to the logger configured last
+    swap_at = r.randrange(1, nhits) if (logger == 'rec' and nhits > 1 and r.chance(0.25)) else None
+
     def body():
         for i, (count, name, pname, data, weird) in enumerate(inputs):
+            if i == swap_at:
+                rig.config.plugins = [plugins.make('RecLoggerB', ['log'])()]
             clock.set_virtual(T0 + i * 1000000)
             mod.leaf(count, name, mod.Person(pname, 30 + i), data, mod.NoStr() if weird == 'nostr' else 'plain')
 
@@ -249,7 +258,7 @@ def case_log(seed, out, spec, wd):
         deep_logger.setLevel(old_level)
     rig.cleanup()
     replay = replay_spec(spec, seed)
-    witness = {'template': template, 'collect': collect, 'logger': logger, 'logger_rejects_unencodable_text': strict, 'fire_count': fc, 'inputs': inputs,
+    witness = {'logger_replaced_before_hit': swap_at, 'template': template, 'collect': collect, 'logger': logger, 'logger_rejects_unencodable_text': strict, 'fire_count': fc, 'inputs': inputs,
                'second_tracepoint': other_id is not None, 'agent_log': [short(x, 160) for x in rig.logs[-2:]]}
     if exc is not None:
         out.inconc('C16 host raised %r' % (exc,))
@@ -286,7 +295,12 @@ def case_log(seed, out, spec, wd):
         unprintable = any(f is None and snapcheck.safe_str(v) is None for _, v, f in fvals)
         nfail += sum(1 for _, _, f in fvals if f is not None)
         if logger == 'rec':
-            a_tp, a_ctx, msg = mine[0]
+            a_tp, a_ctx, msg, a_logger = mine[0]
+            want_logger = 'RecLoggerB' if (swap_at is not None and h >= swap_at) else 'RecLogger'
+            if a_logger != want_logger:
+                out.violation('log:wrong-logger', 'hit %d: the message went to logger %s, the configured one is %s' % (
+                    h, a_logger, want_logger), witness, replay)
+                return
             if msg != exp_msg and not unprintable:
                 out.violation('log:text', 'hit %d: logged %r, the template renders to %r' % (h, msg, exp_msg),
                               witness, replay)
@@ -360,6 +374,8 @@ def case_log(seed, out, spec, wd):
     out.count('messages_compared', compared)
     if rejected:
         out.count('messages_the_logger_rejected', len(rejected))
+    if swap_at is not None:
+        out.count('logger_reconfigured_cases')
     out.count('failing_fields', nfail)
     if malformed:
         out.count('malformed_templates')
